@@ -217,219 +217,219 @@ Definition keywords : list (list N) :=
   ].
 
 (* index of each keyword = `Keyword as usize` = position in ALL_KEYWORDS *)
-Definition kw_ALL : nat := 0.
-Definition kw_ANALYZE : nat := 1.
-Definition kw_AND : nat := 2.
-Definition kw_ANTI : nat := 3.
-Definition kw_ANY : nat := 4.
-Definition kw_AS : nat := 5.
-Definition kw_ASC : nat := 6.
-Definition kw_ATTACH : nat := 7.
-Definition kw_BEGIN : nat := 8.
-Definition kw_BETWEEN : nat := 9.
-Definition kw_BIGDECIMAL : nat := 10.
-Definition kw_BIGINT : nat := 11.
-Definition kw_BIGNUMERIC : nat := 12.
-Definition kw_BINARY : nat := 13.
-Definition kw_BLOB : nat := 14.
-Definition kw_BOOL : nat := 15.
-Definition kw_BOOLEAN : nat := 16.
-Definition kw_BY : nat := 17.
-Definition kw_CASCADE : nat := 18.
-Definition kw_CASE : nat := 19.
-Definition kw_CAST : nat := 20.
-Definition kw_CATALOGS : nat := 21.
-Definition kw_CENTURIES : nat := 22.
-Definition kw_CENTURY : nat := 23.
-Definition kw_CLUSTER : nat := 24.
-Definition kw_COLUMNS : nat := 25.
-Definition kw_COPY : nat := 26.
-Definition kw_CREATE : nat := 27.
-Definition kw_CROSS : nat := 28.
-Definition kw_CUBE : nat := 29.
-Definition kw_CURRENT : nat := 30.
-Definition kw_DATABASE : nat := 31.
-Definition kw_DATABASES : nat := 32.
-Definition kw_DATE : nat := 33.
-Definition kw_DAY : nat := 34.
-Definition kw_DAYS : nat := 35.
-Definition kw_DECADE : nat := 36.
-Definition kw_DECADES : nat := 37.
-Definition kw_DECIMAL : nat := 38.
-Definition kw_DESC : nat := 39.
-Definition kw_DESCRIBE : nat := 40.
-Definition kw_DETACH : nat := 41.
-Definition kw_DISCARD : nat := 42.
-Definition kw_DISTINCT : nat := 43.
-Definition kw_DISTRIBUTE : nat := 44.
-Definition kw_DOUBLE : nat := 45.
-Definition kw_DOW : nat := 46.
-Definition kw_DOY : nat := 47.
-Definition kw_DROP : nat := 48.
-Definition kw_ELSE : nat := 49.
-Definition kw_END : nat := 50.
-Definition kw_EPOCH : nat := 51.
-Definition kw_EXCEPT : nat := 52.
-Definition kw_EXCLUDE : nat := 53.
-Definition kw_EXISTS : nat := 54.
-Definition kw_EXPLAIN : nat := 55.
-Definition kw_EXTERNAL : nat := 56.
-Definition kw_EXTRACT : nat := 57.
-Definition kw_FALSE : nat := 58.
-Definition kw_FETCH : nat := 59.
-Definition kw_FILTER : nat := 60.
-Definition kw_FIRST : nat := 61.
-Definition kw_FLOAT : nat := 62.
-Definition kw_FLOAT2 : nat := 63.
-Definition kw_FLOAT4 : nat := 64.
-Definition kw_FLOAT8 : nat := 65.
-Definition kw_FOLLOWING : nat := 66.
-Definition kw_FOR : nat := 67.
-Definition kw_FORMAT : nat := 68.
-Definition kw_FROM : nat := 69.
-Definition kw_FULL : nat := 70.
-Definition kw_FUNCTION : nat := 71.
-Definition kw_GROUP : nat := 72.
-Definition kw_GROUPING : nat := 73.
-Definition kw_GROUPS : nat := 74.
-Definition kw_HALF : nat := 75.
-Definition kw_HAVING : nat := 76.
-Definition kw_HOUR : nat := 77.
-Definition kw_HOURS : nat := 78.
-Definition kw_IF : nat := 79.
-Definition kw_ILIKE : nat := 80.
-Definition kw_IN : nat := 81.
-Definition kw_INDEX : nat := 82.
-Definition kw_INNER : nat := 83.
-Definition kw_INSERT : nat := 84.
-Definition kw_INT : nat := 85.
-Definition kw_INT1 : nat := 86.
-Definition kw_INT2 : nat := 87.
-Definition kw_INT4 : nat := 88.
-Definition kw_INT8 : nat := 89.
-Definition kw_INTEGER : nat := 90.
-Definition kw_INTERSECT : nat := 91.
-Definition kw_INTERVAL : nat := 92.
-Definition kw_INTO : nat := 93.
-Definition kw_IS : nat := 94.
-Definition kw_ISODOW : nat := 95.
-Definition kw_ISOYEAR : nat := 96.
-Definition kw_JOIN : nat := 97.
-Definition kw_JSON : nat := 98.
-Definition kw_JULIAN : nat := 99.
-Definition kw_LAST : nat := 100.
-Definition kw_LATERAL : nat := 101.
-Definition kw_LEFT : nat := 102.
-Definition kw_LIKE : nat := 103.
-Definition kw_LIMIT : nat := 104.
-Definition kw_MATERIALIZED : nat := 105.
-Definition kw_METADATA : nat := 106.
-Definition kw_MICROSECOND : nat := 107.
-Definition kw_MICROSECONDS : nat := 108.
-Definition kw_MILLENIUM : nat := 109.
-Definition kw_MILLENIUMS : nat := 110.
-Definition kw_MILLISECOND : nat := 111.
-Definition kw_MILLISECONDS : nat := 112.
-Definition kw_MINUTE : nat := 113.
-Definition kw_MINUTES : nat := 114.
-Definition kw_MONTH : nat := 115.
-Definition kw_MONTHS : nat := 116.
-Definition kw_NANOSECOND : nat := 117.
-Definition kw_NANOSECONDS : nat := 118.
-Definition kw_NATURAL : nat := 119.
-Definition kw_NO : nat := 120.
-Definition kw_NOT : nat := 121.
-Definition kw_NULL : nat := 122.
-Definition kw_NULLS : nat := 123.
-Definition kw_NUMERIC : nat := 124.
-Definition kw_OFFSET : nat := 125.
-Definition kw_ON : nat := 126.
-Definition kw_OR : nat := 127.
-Definition kw_ORDER : nat := 128.
-Definition kw_OTHERS : nat := 129.
-Definition kw_OUTER : nat := 130.
-Definition kw_OVER : nat := 131.
-Definition kw_PARTITION : nat := 132.
-Definition kw_PIVOT : nat := 133.
-Definition kw_PLANS : nat := 134.
-Definition kw_POSITION : nat := 135.
-Definition kw_PRECEDING : nat := 136.
-Definition kw_PRIMARY : nat := 137.
-Definition kw_QUALIFY : nat := 138.
-Definition kw_QUARTER : nat := 139.
-Definition kw_RANGE : nat := 140.
-Definition kw_REAL : nat := 141.
-Definition kw_RECURSIVE : nat := 142.
-Definition kw_REGEXP : nat := 143.
-Definition kw_REPLACE : nat := 144.
-Definition kw_RESET : nat := 145.
-Definition kw_RESTRICT : nat := 146.
-Definition kw_RIGHT : nat := 147.
-Definition kw_RLIKE : nat := 148.
-Definition kw_ROLLBACK : nat := 149.
-Definition kw_ROLLUP : nat := 150.
-Definition kw_ROW : nat := 151.
-Definition kw_ROWS : nat := 152.
-Definition kw_SCHEMA : nat := 153.
-Definition kw_SCHEMAS : nat := 154.
-Definition kw_SECOND : nat := 155.
-Definition kw_SECONDS : nat := 156.
-Definition kw_SELECT : nat := 157.
-Definition kw_SEMI : nat := 158.
-Definition kw_SET : nat := 159.
-Definition kw_SETS : nat := 160.
-Definition kw_SHOW : nat := 161.
-Definition kw_SIMILAR : nat := 162.
-Definition kw_SMALLINT : nat := 163.
-Definition kw_SOME : nat := 164.
-Definition kw_SORT : nat := 165.
-Definition kw_STRING : nat := 166.
-Definition kw_SUBSTRING : nat := 167.
-Definition kw_TABLE : nat := 168.
-Definition kw_TABLES : nat := 169.
-Definition kw_TEMP : nat := 170.
-Definition kw_TEMPORARY : nat := 171.
-Definition kw_TEXT : nat := 172.
-Definition kw_THEN : nat := 173.
-Definition kw_TIES : nat := 174.
-Definition kw_TIMESTAMP : nat := 175.
-Definition kw_TIMESTAMPTZ : nat := 176.
-Definition kw_TIMEZONE : nat := 177.
-Definition kw_TIMEZONE_HOUR : nat := 178.
-Definition kw_TIMEZONE_MINUTE : nat := 179.
-Definition kw_TINYINT : nat := 180.
-Definition kw_TO : nat := 181.
-Definition kw_TOP : nat := 182.
-Definition kw_TRUE : nat := 183.
-Definition kw_UBIGINT : nat := 184.
-Definition kw_UINT : nat := 185.
-Definition kw_UINT1 : nat := 186.
-Definition kw_UINT2 : nat := 187.
-Definition kw_UINT4 : nat := 188.
-Definition kw_UINT8 : nat := 189.
-Definition kw_UNBOUNDED : nat := 190.
-Definition kw_UNION : nat := 191.
-Definition kw_UNPIVOT : nat := 192.
-Definition kw_USING : nat := 193.
-Definition kw_USMALLINT : nat := 194.
-Definition kw_UTINYINT : nat := 195.
-Definition kw_VALUES : nat := 196.
-Definition kw_VARCHAR : nat := 197.
-Definition kw_VERBOSE : nat := 198.
-Definition kw_VIEW : nat := 199.
-Definition kw_WEEK : nat := 200.
-Definition kw_WEEKS : nat := 201.
-Definition kw_WHEN : nat := 202.
-Definition kw_WHERE : nat := 203.
-Definition kw_WINDOW : nat := 204.
-Definition kw_WITH : nat := 205.
-Definition kw_XOR : nat := 206.
-Definition kw_YEAR : nat := 207.
-Definition kw_YEARS : nat := 208.
+Definition kw_ALL : nat := 0%nat.
+Definition kw_ANALYZE : nat := 1%nat.
+Definition kw_AND : nat := 2%nat.
+Definition kw_ANTI : nat := 3%nat.
+Definition kw_ANY : nat := 4%nat.
+Definition kw_AS : nat := 5%nat.
+Definition kw_ASC : nat := 6%nat.
+Definition kw_ATTACH : nat := 7%nat.
+Definition kw_BEGIN : nat := 8%nat.
+Definition kw_BETWEEN : nat := 9%nat.
+Definition kw_BIGDECIMAL : nat := 10%nat.
+Definition kw_BIGINT : nat := 11%nat.
+Definition kw_BIGNUMERIC : nat := 12%nat.
+Definition kw_BINARY : nat := 13%nat.
+Definition kw_BLOB : nat := 14%nat.
+Definition kw_BOOL : nat := 15%nat.
+Definition kw_BOOLEAN : nat := 16%nat.
+Definition kw_BY : nat := 17%nat.
+Definition kw_CASCADE : nat := 18%nat.
+Definition kw_CASE : nat := 19%nat.
+Definition kw_CAST : nat := 20%nat.
+Definition kw_CATALOGS : nat := 21%nat.
+Definition kw_CENTURIES : nat := 22%nat.
+Definition kw_CENTURY : nat := 23%nat.
+Definition kw_CLUSTER : nat := 24%nat.
+Definition kw_COLUMNS : nat := 25%nat.
+Definition kw_COPY : nat := 26%nat.
+Definition kw_CREATE : nat := 27%nat.
+Definition kw_CROSS : nat := 28%nat.
+Definition kw_CUBE : nat := 29%nat.
+Definition kw_CURRENT : nat := 30%nat.
+Definition kw_DATABASE : nat := 31%nat.
+Definition kw_DATABASES : nat := 32%nat.
+Definition kw_DATE : nat := 33%nat.
+Definition kw_DAY : nat := 34%nat.
+Definition kw_DAYS : nat := 35%nat.
+Definition kw_DECADE : nat := 36%nat.
+Definition kw_DECADES : nat := 37%nat.
+Definition kw_DECIMAL : nat := 38%nat.
+Definition kw_DESC : nat := 39%nat.
+Definition kw_DESCRIBE : nat := 40%nat.
+Definition kw_DETACH : nat := 41%nat.
+Definition kw_DISCARD : nat := 42%nat.
+Definition kw_DISTINCT : nat := 43%nat.
+Definition kw_DISTRIBUTE : nat := 44%nat.
+Definition kw_DOUBLE : nat := 45%nat.
+Definition kw_DOW : nat := 46%nat.
+Definition kw_DOY : nat := 47%nat.
+Definition kw_DROP : nat := 48%nat.
+Definition kw_ELSE : nat := 49%nat.
+Definition kw_END : nat := 50%nat.
+Definition kw_EPOCH : nat := 51%nat.
+Definition kw_EXCEPT : nat := 52%nat.
+Definition kw_EXCLUDE : nat := 53%nat.
+Definition kw_EXISTS : nat := 54%nat.
+Definition kw_EXPLAIN : nat := 55%nat.
+Definition kw_EXTERNAL : nat := 56%nat.
+Definition kw_EXTRACT : nat := 57%nat.
+Definition kw_FALSE : nat := 58%nat.
+Definition kw_FETCH : nat := 59%nat.
+Definition kw_FILTER : nat := 60%nat.
+Definition kw_FIRST : nat := 61%nat.
+Definition kw_FLOAT : nat := 62%nat.
+Definition kw_FLOAT2 : nat := 63%nat.
+Definition kw_FLOAT4 : nat := 64%nat.
+Definition kw_FLOAT8 : nat := 65%nat.
+Definition kw_FOLLOWING : nat := 66%nat.
+Definition kw_FOR : nat := 67%nat.
+Definition kw_FORMAT : nat := 68%nat.
+Definition kw_FROM : nat := 69%nat.
+Definition kw_FULL : nat := 70%nat.
+Definition kw_FUNCTION : nat := 71%nat.
+Definition kw_GROUP : nat := 72%nat.
+Definition kw_GROUPING : nat := 73%nat.
+Definition kw_GROUPS : nat := 74%nat.
+Definition kw_HALF : nat := 75%nat.
+Definition kw_HAVING : nat := 76%nat.
+Definition kw_HOUR : nat := 77%nat.
+Definition kw_HOURS : nat := 78%nat.
+Definition kw_IF : nat := 79%nat.
+Definition kw_ILIKE : nat := 80%nat.
+Definition kw_IN : nat := 81%nat.
+Definition kw_INDEX : nat := 82%nat.
+Definition kw_INNER : nat := 83%nat.
+Definition kw_INSERT : nat := 84%nat.
+Definition kw_INT : nat := 85%nat.
+Definition kw_INT1 : nat := 86%nat.
+Definition kw_INT2 : nat := 87%nat.
+Definition kw_INT4 : nat := 88%nat.
+Definition kw_INT8 : nat := 89%nat.
+Definition kw_INTEGER : nat := 90%nat.
+Definition kw_INTERSECT : nat := 91%nat.
+Definition kw_INTERVAL : nat := 92%nat.
+Definition kw_INTO : nat := 93%nat.
+Definition kw_IS : nat := 94%nat.
+Definition kw_ISODOW : nat := 95%nat.
+Definition kw_ISOYEAR : nat := 96%nat.
+Definition kw_JOIN : nat := 97%nat.
+Definition kw_JSON : nat := 98%nat.
+Definition kw_JULIAN : nat := 99%nat.
+Definition kw_LAST : nat := 100%nat.
+Definition kw_LATERAL : nat := 101%nat.
+Definition kw_LEFT : nat := 102%nat.
+Definition kw_LIKE : nat := 103%nat.
+Definition kw_LIMIT : nat := 104%nat.
+Definition kw_MATERIALIZED : nat := 105%nat.
+Definition kw_METADATA : nat := 106%nat.
+Definition kw_MICROSECOND : nat := 107%nat.
+Definition kw_MICROSECONDS : nat := 108%nat.
+Definition kw_MILLENIUM : nat := 109%nat.
+Definition kw_MILLENIUMS : nat := 110%nat.
+Definition kw_MILLISECOND : nat := 111%nat.
+Definition kw_MILLISECONDS : nat := 112%nat.
+Definition kw_MINUTE : nat := 113%nat.
+Definition kw_MINUTES : nat := 114%nat.
+Definition kw_MONTH : nat := 115%nat.
+Definition kw_MONTHS : nat := 116%nat.
+Definition kw_NANOSECOND : nat := 117%nat.
+Definition kw_NANOSECONDS : nat := 118%nat.
+Definition kw_NATURAL : nat := 119%nat.
+Definition kw_NO : nat := 120%nat.
+Definition kw_NOT : nat := 121%nat.
+Definition kw_NULL : nat := 122%nat.
+Definition kw_NULLS : nat := 123%nat.
+Definition kw_NUMERIC : nat := 124%nat.
+Definition kw_OFFSET : nat := 125%nat.
+Definition kw_ON : nat := 126%nat.
+Definition kw_OR : nat := 127%nat.
+Definition kw_ORDER : nat := 128%nat.
+Definition kw_OTHERS : nat := 129%nat.
+Definition kw_OUTER : nat := 130%nat.
+Definition kw_OVER : nat := 131%nat.
+Definition kw_PARTITION : nat := 132%nat.
+Definition kw_PIVOT : nat := 133%nat.
+Definition kw_PLANS : nat := 134%nat.
+Definition kw_POSITION : nat := 135%nat.
+Definition kw_PRECEDING : nat := 136%nat.
+Definition kw_PRIMARY : nat := 137%nat.
+Definition kw_QUALIFY : nat := 138%nat.
+Definition kw_QUARTER : nat := 139%nat.
+Definition kw_RANGE : nat := 140%nat.
+Definition kw_REAL : nat := 141%nat.
+Definition kw_RECURSIVE : nat := 142%nat.
+Definition kw_REGEXP : nat := 143%nat.
+Definition kw_REPLACE : nat := 144%nat.
+Definition kw_RESET : nat := 145%nat.
+Definition kw_RESTRICT : nat := 146%nat.
+Definition kw_RIGHT : nat := 147%nat.
+Definition kw_RLIKE : nat := 148%nat.
+Definition kw_ROLLBACK : nat := 149%nat.
+Definition kw_ROLLUP : nat := 150%nat.
+Definition kw_ROW : nat := 151%nat.
+Definition kw_ROWS : nat := 152%nat.
+Definition kw_SCHEMA : nat := 153%nat.
+Definition kw_SCHEMAS : nat := 154%nat.
+Definition kw_SECOND : nat := 155%nat.
+Definition kw_SECONDS : nat := 156%nat.
+Definition kw_SELECT : nat := 157%nat.
+Definition kw_SEMI : nat := 158%nat.
+Definition kw_SET : nat := 159%nat.
+Definition kw_SETS : nat := 160%nat.
+Definition kw_SHOW : nat := 161%nat.
+Definition kw_SIMILAR : nat := 162%nat.
+Definition kw_SMALLINT : nat := 163%nat.
+Definition kw_SOME : nat := 164%nat.
+Definition kw_SORT : nat := 165%nat.
+Definition kw_STRING : nat := 166%nat.
+Definition kw_SUBSTRING : nat := 167%nat.
+Definition kw_TABLE : nat := 168%nat.
+Definition kw_TABLES : nat := 169%nat.
+Definition kw_TEMP : nat := 170%nat.
+Definition kw_TEMPORARY : nat := 171%nat.
+Definition kw_TEXT : nat := 172%nat.
+Definition kw_THEN : nat := 173%nat.
+Definition kw_TIES : nat := 174%nat.
+Definition kw_TIMESTAMP : nat := 175%nat.
+Definition kw_TIMESTAMPTZ : nat := 176%nat.
+Definition kw_TIMEZONE : nat := 177%nat.
+Definition kw_TIMEZONE_HOUR : nat := 178%nat.
+Definition kw_TIMEZONE_MINUTE : nat := 179%nat.
+Definition kw_TINYINT : nat := 180%nat.
+Definition kw_TO : nat := 181%nat.
+Definition kw_TOP : nat := 182%nat.
+Definition kw_TRUE : nat := 183%nat.
+Definition kw_UBIGINT : nat := 184%nat.
+Definition kw_UINT : nat := 185%nat.
+Definition kw_UINT1 : nat := 186%nat.
+Definition kw_UINT2 : nat := 187%nat.
+Definition kw_UINT4 : nat := 188%nat.
+Definition kw_UINT8 : nat := 189%nat.
+Definition kw_UNBOUNDED : nat := 190%nat.
+Definition kw_UNION : nat := 191%nat.
+Definition kw_UNPIVOT : nat := 192%nat.
+Definition kw_USING : nat := 193%nat.
+Definition kw_USMALLINT : nat := 194%nat.
+Definition kw_UTINYINT : nat := 195%nat.
+Definition kw_VALUES : nat := 196%nat.
+Definition kw_VARCHAR : nat := 197%nat.
+Definition kw_VERBOSE : nat := 198%nat.
+Definition kw_VIEW : nat := 199%nat.
+Definition kw_WEEK : nat := 200%nat.
+Definition kw_WEEKS : nat := 201%nat.
+Definition kw_WHEN : nat := 202%nat.
+Definition kw_WHERE : nat := 203%nat.
+Definition kw_WINDOW : nat := 204%nat.
+Definition kw_WITH : nat := 205%nat.
+Definition kw_XOR : nat := 206%nat.
+Definition kw_YEAR : nat := 207%nat.
+Definition kw_YEARS : nat := 208%nat.
 
 (* RESERVED_FOR_COLUMN_ALIAS of keywords.rs (Parser::parse_comma_separated stops before these) *)
 Definition reserved_for_column_alias : list nat :=
-  [205 (* WITH *); 55 (* EXPLAIN *); 1 (* ANALYZE *); 157 (* SELECT *); 203 (* WHERE *); 72 (* GROUP *); 165 (* SORT *); 76 (* HAVING *); 128 (* ORDER *); 182 (* TOP *); 101 (* LATERAL *); 199 (* VIEW *); 104 (* LIMIT *); 125 (* OFFSET *); 59 (* FETCH *); 191 (* UNION *); 52 (* EXCEPT *); 91 (* INTERSECT *); 24 (* CLUSTER *); 44 (* DISTRIBUTE *); 69 (* FROM *); 93 (* INTO *); 50 (* END *)].
+  [205%nat (* WITH *); 55%nat (* EXPLAIN *); 1%nat (* ANALYZE *); 157%nat (* SELECT *); 203%nat (* WHERE *); 72%nat (* GROUP *); 165%nat (* SORT *); 76%nat (* HAVING *); 128%nat (* ORDER *); 182%nat (* TOP *); 101%nat (* LATERAL *); 199%nat (* VIEW *); 104%nat (* LIMIT *); 125%nat (* OFFSET *); 59%nat (* FETCH *); 191%nat (* UNION *); 52%nat (* EXCEPT *); 91%nat (* INTERSECT *); 24%nat (* CLUSTER *); 44%nat (* DISTRIBUTE *); 69%nat (* FROM *); 93%nat (* INTO *); 50%nat (* END *)].
 
 (* precedences of Expr::parse_subexpr (ast/expr.rs) *)
 Definition prec_or : option N := Some 10.
